@@ -56,6 +56,21 @@ def cases(body, valmap, call_oracle=None, start=0, limit=20000, max_visits=3):
                     return v
                 if not pl["p"] and pl["l"] in known:
                     return known[pl["l"]]
+                # component of a tuple built on this path: `match (a, b) { .. }`
+                if len(pl["p"]) == 1 and isinstance(pl["p"][0], dict) and "n" in pl["p"][0] and (pl["l"], pl["p"][0]["n"]) in known:
+                    return known[(pl["l"], pl["p"][0]["n"])]
+                return None
+
+            def sval(op):
+                """string constants are carried as ('str', text) so that oracles can decide `s.is_empty()` etc."""
+                if "const" in op:
+                    from .facts import ConstVal
+                    try:
+                        t_ = ConstVal(op["const"]).as_str()
+                    except Exception:
+                        t_ = None
+                    if t_ is not None:
+                        return ("str", t_)
                 return None
             for st in blk["stmts"]:
                 if st["k"] != "assign" or st["lhs"]["p"]:
@@ -63,9 +78,22 @@ def cases(body, valmap, call_oracle=None, start=0, limit=20000, max_visits=3):
                 rv = st["rv"]
                 l = st["lhs"]["l"]
                 known.pop(l, None)
+                for k_ in [k_ for k_ in known if isinstance(k_, tuple) and k_[0] == l]:
+                    del known[k_]
                 v = None
                 if rv["k"] == "use":
                     v = val(rv["op"])
+                    if v is None:
+                        v = sval(rv["op"])
+                elif rv["k"] == "ref" and rv["place"]["p"] == ["*"] and isinstance(known.get(rv["place"]["l"]), tuple) and known[rv["place"]["l"]][0] == "str":
+                    v = known[rv["place"]["l"]]  # reborrow of a &'static str constant
+                elif rv["k"] == "agg" and rv.get("agg") == "tuple":
+                    for i_, op_ in enumerate(rv["ops"]):
+                        cv = val(op_)
+                        if cv is None:
+                            cv = sval(op_)
+                        if cv is not None:
+                            known[(l, str(i_))] = cv
                 elif rv["k"] == "cast" and rv["cast"].startswith("IntToInt"):
                     v = val(rv["op"])
                 elif rv["k"] == "bin" and rv["op"] in CMP:
